@@ -533,7 +533,8 @@ Definition ins_post (r : rt) (e : elem) (r' : rt) : Prop :=
   end.
 
 Definition ins_U (r : rt) (e : elem) (p : panic) (s' : st) : Prop :=
-  Inv R ES (s_rt s') /\ (p = PUser \/ p = PCapOverflow) /\ rt_abs (s_rt s') ⊆ <[ek e := e]> (rt_abs r).
+  Inv R ES (s_rt s') /\ (p = PUser \/ (p = PCapOverflow /\ rt_abs (s_rt s') = rt_abs r)) /\
+  rt_abs (s_rt s') ⊆ <[ek e := e]> (rt_abs r).
 
 Lemma rt_insert_no_grow_spec e s :
   Inv R ES (s_rt s) -> rt_abs (s_rt s) !! ek e = None -> 0 < hgl (main (s_rt s)) ->
@@ -612,9 +613,10 @@ Proof.
            destruct Hlo2 as [Hn2 Hlo2]. destruct (lo (s_rt s2)) as [o2|].
            ++ destruct Hlo2 as (H1 & H2 & H3). rewrite N.min_l in Hn2 by lia. repeat split; [lia|lia|congruence|lia].
            ++ rewrite N.min_r in Hn2 by lia. split; lia.
-      * intros p s2 (HI2 & Hp & Hsub). split; [exact HI2|]. split; [exact Hp|]. rewrite <- Habs1. exact Hsub.
+      * intros p s2 (HI2 & Hp & Hsub). split; [exact HI2|]. split; [|rewrite <- Habs1; exact Hsub].
+        destruct Hp as [->|[-> Hp]]; [left; reflexivity|right; split; [reflexivity|congruence]].
     + intros s1 Hs1. apply frame0_use; [apply frame0_drop_elem|]. intros [] s2 Hs2.
-      split; [rewrite Hs2, Hs1; exact HI|]. split; [right; reflexivity|].
+      split; [rewrite Hs2, Hs1; exact HI|]. split; [right; split; [reflexivity|rewrite Hs2, Hs1; reflexivity]|].
       rewrite Hs2, Hs1. apply insert_subseteq. exact Habs.
   - eapply wp_conseq; [apply rt_insert_no_grow_spec; [exact HI|exact Habs|lia]| |].
     + intros [] s1 Hp. unfold insert_post. pose proof Hp as (H1 & H2 & H3).
